@@ -209,13 +209,15 @@ impl NaiveWeek {
 
 impl PartialEq for NaiveWeek {
     fn eq(&self, other: &Self) -> bool {
-        self.first_day() == other.first_day()
+        // Compare without panicking for weeks that extend beyond the range of `NaiveDate`.
+        (self.checked_first_day(), self.checked_last_day())
+            == (other.checked_first_day(), other.checked_last_day())
     }
 }
 
 impl Hash for NaiveWeek {
     fn hash<H: Hasher>(&self, state: &mut H) {
-        self.first_day().hash(state);
+        (self.checked_first_day(), self.checked_last_day()).hash(state);
     }
 }
 
